@@ -10,6 +10,7 @@
 #include "cpu.h"
 #include "epoch.h"
 #include "garbage_collection.h"
+#include "verif_hooks.h"
 
 namespace yakushima {
 
@@ -21,9 +22,11 @@ public:
      * @return false fail.
      */
     bool gain_the_right() {
+        YK_VP(YK_LOAD, YK_C_SESSION, &running_);
         bool expected(running_.load(std::memory_order_acquire));
         for (;;) {
             if (expected) { return false; }
+            YK_VP(YK_RMW, YK_C_SESSION, &running_);
             if (running_.compare_exchange_weak(expected, true,
                                                std::memory_order_acq_rel,
                                                std::memory_order_acquire)) {
@@ -33,20 +36,24 @@ public:
     }
 
     [[nodiscard]] Epoch get_begin_epoch() const {
+        YK_VP(YK_LOAD, YK_C_SESSION, &begin_epoch_);
         return begin_epoch_.load(std::memory_order_acquire);
     }
 
     [[nodiscard]] garbage_collection& get_gc_info() { return gc_info_; }
 
     [[nodiscard]] bool get_running() const {
+        YK_VP(YK_LOAD, YK_C_SESSION, &running_);
         return running_.load(std::memory_order_acquire);
     }
 
     void set_begin_epoch(const Epoch epoch) {
+        YK_VP(YK_STORE, YK_C_SESSION, &begin_epoch_);
         begin_epoch_.store(epoch, std::memory_order_relaxed);
     }
 
     void set_running(const bool tf) {
+        YK_VP(YK_STORE, YK_C_SESSION, &running_);
         running_.store(tf, std::memory_order_relaxed);
     }
 
